@@ -148,13 +148,13 @@ def pump_segmentation_cases(res, rng, tier):
                                    "case": {"request": req[:60].decode("latin-1"), "ciphertext_cuts": cuts[:20], "coalesced_with_handshake": coalesce},
                                    "trace": {"single": [base[0][:60].hex(), str(base[1])[:200]], "segmented": [got[0][:60].hex(), str(got[1])[:200]]}})
 
-def fingerprint_plumbing_cases(res, tmp):
+def fingerprint_plumbing_cases(res, tmp, pid="C04"):
     """real client certificates (RSA / EC / Ed25519) presented over TLS to TLSServerProtocol: the middleware must be consulted with
     sha256(DER) of exactly that certificate, and with None when no certificate is presented; Gemini and Titan alike"""
     from nauyaca.server.protocol import GeminiServerProtocol
     from nauyaca.protocol.response import GeminiResponse
     cs = certmod.certs()[:3]
-    async def one(c, line):
+    async def one(c, line, extra=()):
         seen = []
         class MW:
             async def process_request(self, url, ip, fp=None):
@@ -166,6 +166,10 @@ def fingerprint_plumbing_cases(res, tmp):
             cp, kp = os.path.join(tmp, "cc.pem"), os.path.join(tmp, "ck.pem")
             open(cp, "wb").write(c["pem"]); open(kp, "wb").write(c["key_pem"])
             cctx.use_certificate_file(cp); cctx.use_privatekey_file(kp)
+            # further certificates sent along in the client's Certificate message (anybody can append anybody's PUBLIC certificate):
+            # the identity is the leaf the client proved possession of, whatever follows it
+            for e in extra:
+                cctx.add_extra_chain_cert(crypto.load_certificate(crypto.FILETYPE_PEM, e["pem"]))
         pair = tlsmem.Pair(lambda: GeminiServerProtocol(lambda r: GeminiResponse(20, "text/plain", "x"), MW(), Up()), cctx=cctx)
         pair.handshake(); pair.client.sendall(line); pair.to_server()
         for _ in range(8): await asyncio.sleep(0)
@@ -174,13 +178,20 @@ def fingerprint_plumbing_cases(res, tmp):
         if hasattr(pair.server, "_cancel_handshake_timer"): pair.server._cancel_handshake_timer()
         return seen
     async def go():
-        return [(c, line, await one(c, line)) for c in cs + [None] for line in (b"gemini://localhost/x\r\n", b"titan://localhost/f;size=1\r\na")]
-    for c, line, seen in asyncio.run(go()):
-        res.evaluations += 1; res.nontriv(("fp", c["name"] if c else None, line[:5])); res.count("fingerprint-plumbing")
+        out = [(c, (), line, await one(c, line)) for c in cs + [None] for line in (b"gemini://localhost/x\r\n", b"titan://localhost/f;size=1\r\na")]
+        for i, c in enumerate(cs):
+            others = [x for x in cs if x is not c]
+            for extra in ((others[0],), (others[1], others[0])):
+                out.append((c, extra, b"gemini://localhost/x\r\n", await one(c, b"gemini://localhost/x\r\n", extra)))
+        return out
+    for c, extra, line, seen in asyncio.run(go()):
+        res.evaluations += 1; res.nontriv(("fp", c["name"] if c else None, tuple(e["name"] for e in extra), line[:5])); res.count("fingerprint-plumbing" + ("+chain" if extra else ""))
         want = c["fp"] if c else None
         if len(seen) != 1 or seen[0][2] != want or seen[0][1] != "192.0.2.9":
-            res.violations.append({"clause": "middleware-arguments-over-tls", "signature": "C04:tls-args",
-                                   "case": {"certificate": c["name"] if c else None, "request": line.decode("latin-1")}, "trace": {"seen": str(seen)[:300], "expected_fingerprint": want}})
+            res.violations.append({"clause": "the chain is consulted with the fingerprint of the certificate actually presented (the leaf the client holds the key of), over TLS",
+                                   "signature": "%s:tls-args" % pid,
+                                   "case": {"certificate": c["name"] if c else None, "further_certificates_appended_by_the_client": [e["name"] for e in extra], "request": line.decode("latin-1")},
+                                   "trace": {"seen": str(seen)[:300], "expected_fingerprint": want, "fingerprints_of_the_appended_certificates": [e["fp"] for e in extra]}})
 
 def fingerprint_collision_cases(res, tmp, pid="C05"):
     """several client certificates that agree in everything a cache might key on (issuer, subject, serial number, validity) but
